@@ -222,6 +222,26 @@ META = {
         ],
         run_cap_s=120, shrink_tests=300, shrink_s=60,
     ),
+    "C03": _m(
+        "I", "exploration", (240, 60000), (420, 3000),
+        "Each run = one generated model program (4-12 items incl. transformed and weak vars, optionally a bare Value node that shares "
+        "its name with a variable), ONE shared LieselInterface (10%: the deprecated lsl.GooseModel) and a history of 12-40 calls issued by "
+        "logical clients: update_state(pos, state) eagerly / under jit / under vmap (batch 2-3) / jit(vmap), extract_position, log_prob "
+        "(eager/jit), exact repetitions of earlier calls, assignments by the user to the original model between calls, and (every third "
+        "run) F1 faults armed to fire inside an eager update_state. Input states come from a pool (the user's model.state and every state "
+        "returned so far). Every sixth run drives DictInterface / DataclassInterface / NamedTupleInterface with trivial references. "
+        "Non-trivial = at least one interface call; distinct = distinct (program shape, call-kind/mode sequence).",
+        "interface calls",
+        "distinct (program shape, sequence of call kinds and modes) tuples",
+        ["liesel.goose.LieselInterface / DictInterface / DataclassInterface / NamedTupleInterface, liesel.model.GooseModel, Model._copy_computational_model, jax.jit / jax.vmap"],
+        ["node functions (call-counted primitives with a shared F1 trigger)"],
+        [
+            "reference = private deepcopy of the user's model: state := input state, auto-update off, assign each key, full update; bit-exact eagerly (5e-6 with transformed vars because of TFP's identity-keyed bijector cache), rtol/atol 5e-6 across jit/vmap (XLA fusion)",
+            "input states are always up to date (documented precondition of update_state)",
+            "F1 is injected into eager calls only; after a failed call the next calls must satisfy all laws unchanged",
+        ],
+        run_cap_s=240, shrink_tests=60, shrink_s=90,
+    ),
 }
 
 
@@ -236,6 +256,15 @@ NOT_APPLICABLE["C18"] = (
 )
 
 MANIFEST_TEXT = {
+    "C03": dict(
+        technique="deterministic simulation with fault injection: seeded call histories by several logical clients on one shared interface (eager/jit/vmap mix, raising node functions, user mutating the original) vs direct assignment on a private reference copy",
+        design_ref="DESIGN.md section 4 C03, section 3 world I",
+        level_text="Seeded search over model programs x call histories on ONE shared interface object; every update_state result is compared with "
+        "direct assignment + full update on a private reference copy, repeated calls must return identical states (history independence), "
+        "input states and the user's model are digested before/after every call (incl. calls that raised), get-after-put and log_prob laws, "
+        "same laws for dict / dataclass / named-tuple interfaces. Sampling, not a proof.",
+        level_note="Trusted: jax.jit/vmap semantics, deepcopy of the user's model as reference. Node functions are stubs; interfaces and the model are real.",
+    ),
     "C14": dict(
         technique="build-op post-conditions and step invariant inside the world-M deterministic simulation: seeded (distribution, bijector, entry point) programs and value histories vs float64 change-of-variables closed forms (no fault/schedule dimension)",
         design_ref="DESIGN.md section 4 C14",
